@@ -23,7 +23,7 @@ def gindex(it, tag, c):
 def epoch_key(eid): return [Agg('bytes_of_u64', [eid])]
 
 
-def setup_dist(it, nepochs=3, nassets=1, grace=None, cursor='some', owner='owner', claimed_shape='full', expired=0):
+def setup_dist(it, nepochs=3, nassets=1, grace=None, cursor='some', owner='owner', claimed_shape='full', expired=0, empty_at=None):
     """distributor with `nepochs` consecutive epochs (ids base+1..base+n, symbolic base), each with `nassets` assets satisfying
     claimed + available = total; cursor: 'some' (LAST_CLAIMED_EPOCH[alice] symbolic) | 'none_bonded' | 'none_never'."""
     c = it.ctx; w = it.world; w.contract = DIST
@@ -62,8 +62,13 @@ def setup_dist(it, nepochs=3, nassets=1, grace=None, cursor='some', owner='owner
             for j in range(nassets):
                 c.assume(cl2[j] <= tot[j]); tot_avail[j] = tot_avail[j] - av[j]; av[j] = 0; cl[j] = cl2[j]
             avv = VecV([]); clv = VecV([nasset(it, ASSETS[j], cl2[j]) for j in range(nassets)])
-        ep = it.mk(FD + 'Epoch', id=U64(eid), start_time=TS(start), total=VecV([nasset(it, ASSETS[j], tot[j]) for j in range(nassets)]),
-                   available=avv, claimed=clv, global_index=gi)
+        totv = VecV([nasset(it, ASSETS[j], tot[j]) for j in range(nassets)])
+        if empty_at == k:
+            # an epoch created with no fee inflow and nothing rolled over: total, available and claimed are all empty
+            for j in range(nassets):
+                tot_avail[j] = tot_avail[j] - av[j]; av[j] = 0; tot[j] = 0; cl[j] = 0
+            totv, avv, clv = VecV([]), VecV([]), VecV([])
+        ep = it.mk(FD + 'Epoch', id=U64(eid), start_time=TS(start), total=totv, available=avv, claimed=clv, global_index=gi)
         entries.append((epoch_key(eid), ep))
         eps.append(dict(id=eid, start=start, tot=tot, av=av, cl=cl, gi=gi, share=c.sym('share%d' % k, 128)))
         c.assume(eps[-1]['share'] <= E18)
